@@ -419,7 +419,8 @@ def judge_cases(ctx, cases, *, tamper_build=None, tamper_real=None, steps=True):
     preps = [prepare(c, tamper_build if (tamper_build and k == 0) else None) for k, c in enumerate(cases)]
     batch = [mp for _, mp in preps]
     res = run_tlc(ctx.workdir / "mc", MODULE, CFG_MC, files={"batch.json": batch},
-                  env={"BATCH_FILE": "batch.json", "MODE": "mc"}, coverage=(ctx.tier == "thorough"))
+                  env={"BATCH_FILE": "batch.json", "MODE": "mc"})     # TLC's -coverage runs out of memory on this module
+
     ctx.add_tlc(res, "mc: oracle (optimal values / optimal gain) + multichain policy-iteration machine from every initial rule")
     bad = [v for v in res.violated if v in DESIGN_INVS]
     if bad:
@@ -431,6 +432,20 @@ def judge_cases(ctx, cases, *, tamper_build=None, tamper_real=None, steps=True):
             orcs[r["iid"]] = r
         elif r["kind"] == "run":          # several behaviours per initial rule when exact ties branch
             runs.setdefault((r["iid"], tuple(r["pol0"])), []).append(r)
+            # per-action coverage of the machine, from the behaviours TLC emitted
+            cov = ctx.extra.setdefault("machine_action_coverage", {"Start": 0, "Evaluate": 0, "GainImprove:changed": 0,
+                                                                    "GainImprove:kept": 0, "BiasImprove:changed": 0,
+                                                                    "BiasImprove:stop": 0, "cut:cap": 0, "cut:cycle": 0})
+            ng = sum(1 for e in r["hist"] if e["by"] == "gain")
+            nb = sum(1 for e in r["hist"] if e["by"] == "bias")
+            ev = len(r["hist"]) - (1 if r["phase"] in ("cap", "cycle") else 0)
+            cov["Start"] += 1
+            cov["Evaluate"] += ev
+            cov["GainImprove:changed"] += ng
+            cov["GainImprove:kept"] += ev - ng
+            cov["BiasImprove:changed"] += nb
+            cov["BiasImprove:stop"] += 1 if r["phase"] == "done" else 0
+            cov["cut:" + r["phase"]] = cov.get("cut:" + r["phase"], 0) + (1 if r["phase"] != "done" else 0)
     judge_batch, pending = [], []
     for i, (c, (b, mp)) in enumerate(zip(cases, preps), start=1):
         orc = orcs.get(i)
@@ -603,8 +618,15 @@ def judge_one(ctx, jby, steps, i, c, b, mp, orc, exact, myruns, outs):
                 else:
                     for s in range(N):
                         if not jr["attains"][s]:
+                            pvs = frac(jr["pv"][s])
+                            if abs(float(pvs - exact[s])) <= WINDOW * max(1.0, abs(float(exact[s]))):
+                                # a loss this small can only come from msdm's np.isclose tie window: not judged
+                                ctx.drift("tie-window", {"case": digest(c), "run": tag, "state": s,
+                                                         "policy_value": str(pvs), "optimum": str(exact[s])})
+                                run_ok = False
+                                continue
                             fail("policy-attains", f"exact {'value' if disc else 'gain'} of the returned policy at state {s} is "
-                                                   f"{frac(jr['pv'][s])}, the optimum is {exact[s]}",
+                                                   f"{pvs}, the optimum is {exact[s]}",
                                  {"policy_value": jr["pv"], "optimum": orc["v"]})
                             run_ok = False
                             break
